@@ -11,6 +11,13 @@ cmake --build "$WT/_build" >> "$LOG" 2>&1 || { echo "RESULT build-fails" | tee -
 if ctest --test-dir "$WT/_build" -j8 --timeout 900 >> "$LOG" 2>&1; then SUITE=pass; else SUITE=FAIL; fi
 DEMO=$(ls "$M"/demo.c "$M"/demo.cpp 2>/dev/null | head -1)
 CC=gcc; case "$DEMO" in *.cpp) CC=g++;; esac
+if [ -f "$M/build.sh" ]; then
+  # the sub-agent supplied its own build+run script (it expects to live in <worktree>/seeded/<m>/ and builds from the worktree state)
+  ( cd "$M" && timeout 900 sh ./build.sh >> "$LOG" 2>&1 ); RC_MUT=$?
+  git checkout -q -- .
+  cmake --build "$WT/_build" >> "$LOG" 2>&1
+  ( cd "$M" && timeout 900 sh ./build.sh >> "$LOG" 2>&1 ); RC_CLEAN=$?
+else
 $CC -O1 -I"$WT/include" "$DEMO" "$WT/_build/libmimalloc.a" -lpthread -o "$M/demo_mut" >> "$LOG" 2>&1
 ( cd "$M" && timeout 300 ./demo_mut >> "$LOG" 2>&1 ); RC_MUT=$?
 git checkout -q -- .
@@ -18,5 +25,6 @@ cmake --build "$WT/_build" >> "$LOG" 2>&1
 $CC -O1 -I"$WT/include" "$DEMO" "$WT/_build/libmimalloc.a" -lpthread -o "$M/demo_clean" >> "$LOG" 2>&1
 ( cd "$M" && timeout 300 ./demo_clean >> "$LOG" 2>&1 ); RC_CLEAN=$?
 rm -f "$M/demo_mut" "$M/demo_clean"
+fi
 echo "RESULT suite=$SUITE demo_with_patch_rc=$RC_MUT demo_clean_rc=$RC_CLEAN" | tee -a "$LOG"
 [ "$SUITE" = pass ] && [ "$RC_MUT" != 0 ] && [ "$RC_CLEAN" = 0 ]
